@@ -49,7 +49,29 @@ def run(tier, seed, replay):
             c["flags"] = {"ignore_params": fp, "ignore_services": fs, "quiet": False, "stub": False}
             c["keep_out"] = False
             specs.append(c)
+    # the same combinations with --quiet (and with --stub): the decision and the diagnostics do not depend on the printer
+    qspecs = []
+    for c in specs:
+        for extra in ({"quiet": True}, {"quiet": True, "stub": True}):
+            q = dict(c, id=c["id"] + "q" + ("s" if extra.get("stub") else ""), flags=dict(c["flags"], **extra))
+            qspecs.append(q)
+    qobs = build.gx_run(tooldir, qspecs)
+    common.real_sanity(out, qspecs, qobs, "C16")
+    for k, c in enumerate(specs):
+        pass
     obs = build.gx_run(tooldir, specs)
+    for k, c in enumerate(specs):
+        for d in (0, 1):
+            qo = qobs[2 * k + d]
+            if qo.get("exit") != obs[k].get("exit") or (qo.get("errors") or []) != (obs[k].get("errors") or []):
+                stubmode = bool(qspecs[2 * k + d]["flags"].get("stub"))
+                # a stub build may differ only where code generation itself fails (formatter): compare the front-end verdict only
+                if stubmode and any(e.startswith("runner.StepCodeGenerator") for e in (qo.get("errors") or []) + (obs[k].get("errors") or [])):
+                    continue
+                out.violation("quiet-changes-verdict:%s" % (qspecs[2 * k + d]["flags"],), "the same configuration and ignore flags give another exit status / diagnostics with %s" % ("--quiet --stub" if stubmode else "--quiet"),
+                              dict(common.slim(qspecs[2 * k + d], qo), without_quiet={"exit": obs[k].get("exit"), "errors": obs[k].get("errors")}))
+            if qo.get("stdout"):
+                out.violation("quiet-prints", "--quiet printed something", common.slim(qspecs[2 * k + d], qo))
     common.real_sanity(out, specs, obs, "C16")
     common.correspondence(out, env, specs, obs, "C16 run/report/compile", verdict_claim="with a flag set a configuration is accepted iff all its remaining violations belong to an ignored class")
     nontrivial = set()
